@@ -42,6 +42,7 @@ func lemmaMirrorImportRequest(pl, out *ImportRequestPayload) (err error, end boo
 //@   requires out.ObjectType == 0 && out.UniqueIdentifier == "" && out.Object == nil
 //@   usebody (*Encoder).Struct$1
 //@   usebody (*Decoder).Struct$1
+//@   ensures err != nil ==> !knownObjectType(pl.ObjectType)
 //@   ensures !tapeDropped
 //@   ensures err == nil ==> end && out.ObjectType == pl.ObjectType && out.UniqueIdentifier == pl.UniqueIdentifier && out.Object == pl.Object
 
@@ -58,6 +59,7 @@ func lemmaMirrorGetResponse(pl, out *GetResponsePayload) (err error, end bool) {
 //@   requires out.ObjectType == 0 && out.UniqueIdentifier == "" && len(out.Attribute) == 0 && out.Object == nil
 //@   usebody (*Encoder).Struct$1
 //@   usebody (*Decoder).Struct$1
+//@   ensures err != nil ==> !knownObjectType(pl.ObjectType)
 //@   ensures !tapeDropped
 //@   ensures err == nil ==> end && out.ObjectType == pl.ObjectType && out.UniqueIdentifier == pl.UniqueIdentifier && out.Object == pl.Object
 //@   ensures err == nil && len(pl.Attribute) > 0 ==> len(out.Attribute) == len(pl.Attribute) && arr(out.Attribute) == arr(pl.Attribute)
@@ -75,6 +77,7 @@ func lemmaMirrorExportResponse(pl, out *ExportResponsePayload) (err error, end b
 //@   requires out.ObjectType == 0 && len(out.TemplateAttribute.Name) == 0 && len(out.TemplateAttribute.Attribute) == 0 && out.Object == nil
 //@   usebody (*Encoder).Struct$1
 //@   usebody (*Decoder).Struct$1
+//@   ensures err != nil ==> !knownObjectType(pl.ObjectType)
 //@   ensures !tapeDropped
 //@   ensures err == nil ==> end && out.ObjectType == pl.ObjectType && out.Object == pl.Object
 //@   ensures err == nil ==> len(out.TemplateAttribute.Attribute) == len(pl.TemplateAttribute.Attribute) && arr(out.TemplateAttribute.Attribute) == arr(pl.TemplateAttribute.Attribute)
